@@ -27,6 +27,10 @@ def gen_table(rng, ncols=None, nrows=None, shape=None, exotic_names=True):
                 elif not integer and rng.random() < 0.08:
                     # a valid number close to - but not equal to - the missing marker
                     data[j] = float(missing) + rng.choice([0.05, -0.05, 1e-9, -1e-9, 0.0009765625])
+        if not integer and rng.random() < 0.1:
+            # values whose common offset is huge compared with their spread (Julian days, epoch seconds, UTM northings)
+            base = rng.choice([2460000.0, 4000000.0, 1e8])
+            data = [v if (missing is not None and v == missing) else base + rng.choice([-8, -3.5, -1, -0.25, 0, 0.5, 1, 2.75, 6, 11.125]) for v in data]
         # at least two distinct valid values
         valid = [v for v in data if missing is None or v != missing]
         if len(set(valid)) < 2:
